@@ -17,6 +17,17 @@ CHECKS = {
          'x87 rounding is outside the theorems (parameters compared within 2^-28). Exactly degenerate inputs are '
          'C17\'s domain. Trusted: Coq kernel + vm_compute, python harness (generators, marshalling).',
          'DESIGN.md section 6 (C06)'),
+ 'C07': ('Coq proof (clipping loop over an abstract fit/statistic: retained-set characterisation, no untested '
+         're-entry, accumulation monotone, stop reasons, prefix consistency, result spec) + per-run trace validation '
+         'of iter_linear_fit histories (nclip = 0..K) evaluated inside Coq',
+         'Machine-checked theorems about the loop for EVERY fit function, statistic, sigma, nclip and mask; the '
+         'concrete three-valued step used for validation is proved to coincide with the abstract step outside the '
+         'tolerance band; refutation witness for the pre-fix loop (F2). Each run validates the implementation\'s '
+         'histories step by step (retained set, stop condition, eff_nclip, fit = exact optimum of the retained '
+         'points, statistics recomputed exactly) in Coq.',
+         'Cut-off decisions within a 2^-20 relative band are accepted either way (rounding); mae through a '
+         'rational sqrt enclosure. Trusted: Coq kernel + vm_compute, python harness.',
+         'DESIGN.md section 6 (C07)'),
  'C17': ('Coq proof (Gauss-Jordan inverse correct for every order n; null vector => Singular) + per-run '
          'correspondence of the exact model with linalg.inv evaluated inside Coq',
          'Machine-checked theorems about an exact-rational model of the Gauss-Jordan algorithm (left and right '
